@@ -14,7 +14,7 @@ from lib import Failure, TieResult
 HARNESS = "harness/array/arr_harness.cpp"
 DEPS = ["harness/tracked.h"]
 RESET = "arr reset"
-ELEMS = {"tracked": (1, []), "long": (0, ["-DELEM_LONG"]), "uchar": (0, ["-DELEM_UCHAR"])}
+ELEMS = {"tracked": (1, []), "long": (0, ["-DELEM_LONG"]), "uchar": (0, ["-DELEM_UCHAR"]), "double": (0, ["-DELEM_DOUBLE"])}
 
 PROPS = {
     "C14": {
